@@ -628,6 +628,26 @@ func RuleL1(c *Ctx) {
 			})
 			ok = whole && nSt == 1 && len(core.CallsIn(fn)) == 0
 		}
+		if !ok {
+			// any other arrangement: folded on symbolic coordinates, p must become exactly p1's X, Y, Z and p1 stay
+			sym := func(n string) *fterm { return &fterm{op: "sym", s: n} }
+			dst := &fobj{slots: []any{sym("A"), sym("B"), sym("C")}}
+			src := &fobj{slots: []any{sym("X"), sym("Y"), sym("Z")}}
+			fo := &folder{limit: 10_000}
+			if res, err := fo.Fold(fn, []any{fptr{dst, 0}, fptr{src, 0}}); err == nil {
+				same := true
+				for i, n := range []string{"X", "Y", "Z"} {
+					d, okD := dst.slots[i].(*fterm)
+					sv, okS := src.slots[i].(*fterm)
+					if !okD || !okS || d.String() != n || sv.String() != n {
+						same = false
+					}
+				}
+				if rp, isP := res.(fptr); same && isP && rp.o == dst {
+					ok = true
+				}
+			}
+		}
 		c.Check(ok, "L1", "Element.Set", fn.Pos(), "Set does not copy X, Y and Z from the same-named coordinates of p1", "X<-X, Y<-Y, Z<-Z")
 	} else {
 		c.Unresolved("L1", "banderwagon.(*Element).Set")
@@ -654,6 +674,7 @@ func RuleL1(c *Ctx) {
 		// the only other thing it may do: answer the identity for an operand of the identity class (X = 0), which
 		// the dependency's GLV routine cannot take (rule E5)
 		var isz, setid *ssa.Call
+		var idStore *ssa.Store
 		for _, ci := range core.CallsIn(fn) {
 			call, isCall := ci.(*ssa.Call)
 			if !isCall {
@@ -667,19 +688,41 @@ func RuleL1(c *Ctx) {
 				setid = call
 			}
 		}
-		guarded := isz != nil && setid != nil && len(core.CallsIn(fn)) == 4
-		ok := len(reg) == 1 && len(mont) == 0 && len(sm) == 1 && (guarded || (len(core.CallsIn(fn)) == 2 && core.PostDominatesEntry(fn, sm[0])))
+		core.AllInstrs(fn, func(in ssa.Instruction) {
+			if st, isSt := in.(*ssa.Store); isSt && core.PathOf(st.Addr) == "p:p" && core.PathOf(st.Val) == "*(g:banderwagon.Identity)" {
+				idStore = st
+			}
+		})
+		nCalls := len(core.CallsIn(fn))
+		guarded := isz != nil && ((setid != nil && nCalls == 4) || (setid == nil && idStore != nil && nCalls == 3))
+		ok := len(reg) == 1 && len(mont) == 0 && len(sm) == 1 && (guarded || (nCalls == 2 && core.PostDominatesEntry(fn, sm[0])))
 		if ok && guarded {
 			smCut, idCut := core.NewCuts(), core.NewCuts()
 			smCut.AddInstr(sm[0])
-			idCut.AddInstr(setid)
+			if setid != nil {
+				idCut.AddInstr(setid)
+			} else {
+				idCut.AddInstr(idStore)
+			}
 			zeroArm := boolEdges(fn, isz, true)
+			either := core.NewCuts()
+			either.AddInstr(sm[0])
+			for e := range zeroArm.Edges {
+				either.Edges[e] = true
+			}
 			for _, r := range core.Returns(fn) {
-				if core.MustPass(fn, smCut, r) {
-					continue
-				}
-				if !(core.MustPass(fn, zeroArm, r) && core.MustPass(fn, idCut, r) && len(r.Results) == 1 && (r.Results[0] == ssa.Value(setid) || core.PathOf(r.Results[0]) == "p:p")) {
+				okRes := len(r.Results) == 1 && (core.PathOf(r.Results[0]) == "p:p" || (setid != nil && r.Results[0] == ssa.Value(setid)) || r.Results[0] == ssa.Value(sm[0]))
+				// every way to the return multiplies, or takes the X = 0 arm ...
+				if !okRes || core.ReachableAvoiding(fn, nil, either, r) {
 					ok = false
+				}
+				// ... and on the X = 0 arm the identity is written before returning
+				for e := range zeroArm.Edges {
+					for si, sc := range e.From.Succs {
+						if sc == e.To && core.ReachableFromEdge(fn, e.From, si, idCut, r) {
+							ok = false
+						}
+					}
 				}
 			}
 			// the multiplication is not on the identity arm
@@ -688,7 +731,7 @@ func RuleL1(c *Ctx) {
 			}
 		}
 		if ok {
-			ok = core.PathOf(reg[0].Call.Args[0]) == "*(p:scalarMont)" && sm[0].Call.Args[2] == reg[0].Call.Args[1] &&
+			ok = core.PathOf(reg[0].Call.Args[0]) == "*(p:scalarMont)" && (sm[0].Call.Args[2] == reg[0].Call.Args[1] || sm[0].Call.Args[2] == ssa.Value(reg[0])) &&
 				core.PathOf(sm[0].Call.Args[0]) == "p:p.inner" && core.PathOf(sm[0].Call.Args[1]) == "p:p1.inner" && core.Precedes(fn, reg[0], sm[0])
 		}
 		c.Check(ok, "L1", "Element.ScalarMul", fn.Pos(), "ScalarMul does not, on every path, multiply p1 by the regular-form (non-Montgomery) integer of its scalar through PointProj.ScalarMultiplication (and nothing else, except answering the identity for an operand with X = 0)", "scalar.ToBigIntRegular(&big) then inner.ScalarMultiplication(&p1.inner, &big)")
